@@ -156,7 +156,7 @@ fn check_from_iter(ctx: &mut Ctx, seq: &[usize]) {
 fn explore(ctx: &mut Ctx) {
     let thorough = ctx.tier.is_thorough();
     // Every non-decreasing list over every small universe, incl. overfull ones.
-    let (u_max, k_max) = if thorough { (8, 9) } else { (6, 7) };
+    let (u_max, k_max) = if thorough { (9, 10) } else { (6, 7) };
     for universe in 0..=u_max {
         for k in 0..=k_max {
             if universe == 0 && k > 0 {
@@ -214,7 +214,7 @@ fn explore(ctx: &mut Ctx) {
         }
     }
     // try_from_iter over every sequence, sorted or not.
-    let (alpha, len) = if thorough { (7, 6) } else { (6, 5) };
+    let (alpha, len) = if thorough { (8, 7) } else { (6, 5) };
     enumr::words(alpha, len, |w| {
         let c = Case::FromIter { seq: w.to_vec() };
         if ctx.mine(&c) {
